@@ -97,9 +97,27 @@ def _named_constant(name_node):
     d = tables.module_constant(name_node._mod, name_node.id)
     if d is None:
       return None
-    return _abstract(tables.const_value(d))
+    try:
+      return _abstract(tables.const_value(d))
+    except AnalysisError:
+      return _abstract_literal(d)
   except AnalysisError:
     return None
+
+
+def _abstract_literal(node):
+  """a literal tuple / list whose cells may be names (classes, functions):
+  names become symbols."""
+  if isinstance(node, ast.Constant):
+    return Const(node.value)
+  if isinstance(node, ast.Name):
+    return Sym(node.id, node)
+  if isinstance(node, ast.Attribute):
+    return Sym(norm(node), node)
+  if isinstance(node, (ast.Tuple, ast.List)):
+    out = tuple(_abstract_literal(e) for e in node.elts)
+    return None if any(x is None for x in out) else out
+  return None
 
 
 def _attribute_constant(node):
